@@ -6,6 +6,18 @@ VERIF = Path(__file__).resolve().parent.parent
 ent = json.loads((VERIF / "tools" / "manifest_global.json").read_text())
 ent["checks"] = {p.stem: json.loads(p.read_text()) for p in sorted((VERIF / "tools" / "manifest.d").glob("C*.json"))}
 ent.setdefault("not_applicable", {})
+# tools/manifest_hold.txt: "Cxx reason" lines — checks temporarily withdrawn (e.g. while a model is updated to follow a fix commit)
+hold = {}
+hp = VERIF / "tools" / "manifest_hold.txt"
+if hp.exists():
+    for l in hp.read_text().splitlines():
+        if l.strip() and not l.startswith("#"):
+            k, _, r = l.strip().partition(" ")
+            hold[k] = r or "temporarily withdrawn"
+for k, r in hold.items():
+    if k in ent["checks"]:
+        del ent["checks"][k]
+        ent["not_applicable"][k] = "temporarily not claimed: " + r
 props = [json.loads(l)["id"] for l in (VERIF / "properties.jsonl").read_text().splitlines() if l.strip()]
 checks = []
 for pid in props:
